@@ -91,6 +91,15 @@ fn install_excl(idt: &mut InterruptDescriptorTable, lo: u8, hi: u8) {
 fn install_literal_14(idt: &mut InterruptDescriptorTable) {
     set_general_handler!(idt, general_handler, 14);
 }
+fn install_literal_28(idt: &mut InterruptDescriptorTable) {
+    set_general_handler!(idt, general_handler, 28);
+}
+fn install_literal_21(idt: &mut InterruptDescriptorTable) {
+    set_general_handler!(idt, general_handler, 21);
+}
+fn install_literal_255(idt: &mut InterruptDescriptorTable) {
+    set_general_handler!(idt, general_handler, 255);
+}
 fn install_bounds(idt: &mut InterruptDescriptorTable, lo: Bound<u8>, hi: Bound<u8>) {
     set_general_handler!(idt, general_handler, (lo, hi));
 }
@@ -144,6 +153,29 @@ fn prepopulated_case(c: &(u8, u8, Vec<(u8, u64, u8)>), obs: &mut Obs) -> CaseRes
     install_incl(&mut idt, *lo, *hi);
     let reference = FULL_INCL.with(|t| t.clone());
     check_installed_over(&idt, &before, |v| v >= *lo as usize && v <= *hi as usize, Some(&reference), &format!("set_general_handler!(.., {}..={}) over a pre-populated table", lo, hi))?;
+    // the same installation (same macro site) once more after some of the installed gates have been
+    // masked with set_present(false) while keeping their handler address: every non-reserved vector
+    // of the range must be present again
+    let mut masked = 0;
+    for (v, _, _) in pre {
+        let v = 32 + (*v as usize % 224);
+        if v >= *lo as usize && v <= *hi as usize {
+            let a = idt[v as u8].handler_addr();
+            unsafe { idt[v as u8].set_handler_addr(a).set_present(false) };
+            masked += 1;
+        }
+    }
+    if *lo <= 3 && *hi >= 3 {
+        let a = idt.breakpoint.handler_addr();
+        unsafe { idt.breakpoint.set_handler_addr(a).set_present(false) };
+        masked += 1;
+    }
+    if masked > 0 {
+        let before2 = *raw(&idt);
+        install_incl(&mut idt, *lo, *hi);
+        check_installed_over(&idt, &before2, |v| v >= *lo as usize && v <= *hi as usize, Some(&reference), &format!("second set_general_handler!(.., {}..={}) from the same site after {} installed gates were masked with set_present(false)", lo, hi, masked))?;
+        obs.label("reinstalled-over-masked-gates");
+    }
     if !pre.is_empty() {
         obs.nontrivial(&(lo, hi, pre.len()));
     }
@@ -238,6 +270,13 @@ fn forms_case(c: &(u8, u8, u8, u8, u8), obs: &mut Obs) -> CaseResult {
         2 => {
             install_literal_14(&mut idt);
             check_installed(&idt, |v| v == 14, None, "literal 14")?;
+            // three more literal vectors: the newest exception vectors (21 #CP with error code, 28 #HV
+            // next to the reserved block 22-27) and the last vector
+            for (f, k) in [(install_literal_28 as fn(&mut InterruptDescriptorTable), 28usize), (install_literal_21, 21), (install_literal_255, 255)] {
+                let mut t = Box::new(InterruptDescriptorTable::new());
+                f(&mut t);
+                check_installed(&t, |v| v == k, None, &format!("literal {}", k))?;
+            }
         }
         3 => {
             let mk = |k: u8, x: u8| match k % 3 {
@@ -428,7 +467,7 @@ pub fn run(run: &mut Run) {
     let n = run.cases(3_000, 100_000);
     run.sub(
         "forms",
-        "the other syntactic forms: lo..hi, no range (full table), a literal vector (14), (Bound,Bound) with all 9 bound-kind combinations, lo.. ; same oracle",
+        "the other syntactic forms: lo..hi, no range (full table), literal vectors (14, 21, 28, 255), (Bound,Bound) with all 9 bound-kind combinations, lo.. ; same oracle",
         n,
         (0u8..5, any::<u8>(), any::<u8>(), 0u8..3, 0u8..3),
         forms_case,
